@@ -317,7 +317,10 @@ def eval_cases(pid, tag, header, cases_text, queries, timeout=900):
     and return {query_name: raw text of the printed value} (None if absent)."""
     d = os.path.join(COQ, "cases")
     os.makedirs(d, exist_ok=True)
-    path = os.path.join(d, "Cases_%s_%s.v" % (pid, tag))
+    # the process id keeps concurrent runs (of the same property, e.g. against
+    # different trees) from overwriting each other's files
+    path = os.path.join(d, "Cases_%s_%s_p%d.v" % (pid, tag, os.getpid()))
+    _sweep_cases(d)
     parts = [header, cases_text]
     for q, expr in queries:
         parts.append('Goal True. idtac "@@BEGIN %s". Abort.' % q)
@@ -326,6 +329,15 @@ def eval_cases(pid, tag, header, cases_text, queries, timeout=900):
     with open(path, "w") as f:
         f.write("\n".join(parts) + "\n")
     rc, out = coqc(path, timeout=timeout)
+    for ext in (".vo", ".vok", ".vos", ".glob"):
+        try:
+            os.remove(path[:-2] + ext)
+        except OSError:
+            pass
+    try:
+        os.remove(os.path.join(d, "." + os.path.basename(path)[:-2] + ".aux"))
+    except OSError:
+        pass
     res = {}
     for q, _ in queries:
         m = re.search(r"@@BEGIN %s\n(.*?)@@END %s" % (q, q), out, re.S)
@@ -351,6 +363,21 @@ def split_list_def(text, name):
 
 def join_list_def(head, items, tail):
     return head + "[\n  " + ";\n  ".join(items) + "\n]" + tail + "\n"
+
+
+def _sweep_cases(d, max_age=2 * 3600):
+    """Remove case files left by earlier runs (they can be large)."""
+    now = time.time()
+    try:
+        for fn in os.listdir(d):
+            p = os.path.join(d, fn)
+            if fn.startswith(("Cases_", ".Cases_")) and now - os.path.getmtime(p) > max_age:
+                try:
+                    os.remove(p)
+                except OSError:
+                    pass
+    except OSError:
+        pass
 
 
 def parse_nat_list(txt):
